@@ -6,6 +6,7 @@ CONSTANTS
   MaxSteps = 5
   MaxTerms = 5
   Emit = "all"
+  FillChoices <- MC_Fill0
   Bug = "none"
 CONSTRAINT Small
 VIEW View
